@@ -21,9 +21,11 @@ TEXT = {
     "C03": (COMMON + "The declarative precedence relation (Unparse) and the Pratt machine (Parser) are proved to agree on every tree with <= 3 operators; "
             "minimal, fully parenthesised and mixed-whitespace spellings are replayed on documents that separate alternative groupings.", "6, 14.2"),
     "C04": (COMMON + "Pratt machine = ABNF chart recogniser on ALL token strings up to length 4/5; every token string and single-token mutants of "
-            "sentences are given to the real Compile; strings derived only by the deviation production D1 are the one known finding.", "6, 14.2"),
+            "sentences are given to the real Compile; strings derived only by the deviation production D1 are the one known finding. The explicit-stack "
+            "parser machine (ParserM) refines the Pratt specification and is bound to parser.go by Trace_Parse (real nud/led sequences).", "6, 14.1, 14.2"),
     "C05": (COMMON + "Totality of the lexer / parser / evaluator models on short inputs (no panic status, no read past eof); exhaustive short strings over "
-            "character classes, ASCII, boundary runes and invalid bytes; size amplification to 64 KiB and seeded fuzzing are exploration, not model checking.", "6, 10, 14.2"),
+            "character classes, ASCII, boundary runes and invalid bytes; lexer and parser machines (LexM, ParserM): read positions in range, linear step "
+            "count / consumed-token progress, termination; size amplification to 64 KiB and seeded fuzzing are exploration, not model checking.", "6, 10, 14.1, 14.2"),
     "C06": (COMMON + "Api.tla: no action writes a document (action property + invariant, negative control InPlaceSortBy); every replayed Search compares "
             "deep and capacity-aware snapshots of the document before/after, on success and error paths, with document canaries.", "6, 14.2"),
     "C07": (COMMON + "Truth table over all ordered pairs of the value universe for 6 comparators, ||, &&, !; short-circuiting checked by an erroring right "
@@ -40,9 +42,11 @@ TEXT = {
             "(Sched.tla) enumerates/samples interleavings of the measured hook points, replayed on real goroutines gated at the hooks; the Go race "
             "detector observes the memory model on free-running goroutines.", "6, 10, 14.2"),
     "C13": (COMMON + "Api.tla: HistoryIndependent over all histories (handle and reused Parser), negative controls InPlaceSortBy / NoIndexReset; every "
-            "history <= 4/5 replayed on one real object and compared with fresh objects and the one-shot Search.", "6, 14.2"),
+            "history <= 4/5 replayed on one real object and compared with fresh objects and the one-shot Search; LexM: two tokenize() calls per "
+            "history, the raw-string buffer does not carry over (negative control ReuseLexer).", "6, 14.1, 14.2"),
     "C14": (COMMON + "Lexer round-trip theorems (quoted identifier, raw string, literal, unquoted identifier membership, whitespace insignificance) for "
-            "every string up to 3/4 characters over character classes and every 2-character string over ASCII + boundary runes; the same spellings replayed.", "6, 14.2"),
+            "every string up to 3/4 characters over character classes and every 2-character string over ASCII + boundary runes; the same spellings replayed; "
+            "the rune-by-rune lexer machine LexM refines the lexer specification.", "6, 14.1, 14.2"),
     "C15": (COMMON + "Pipe law and substitution theorem on the spec; metamorphic replay with both sides real (A|B vs B after A; C[A] vs C[`v`]), each "
             "side also checked against the specification.", "6, 14.2"),
     "C16": (COMMON + "IsJSON of every ok outcome is a theorem of the spec; the JSON-closure walk is applied to real results of the corner family and of "
